@@ -135,7 +135,7 @@ func genC11(t *rapid.T) c11Case {
 	case 3:
 		nb = rapid.SampledFrom([]int{10000, 125000}).Draw(t, "numbyte")
 	default:
-		nb = rapid.IntRange(0, 4096).Draw(t, "numbyte")
+		nb = uniformInt(t, 0, 4096, "numbyte")
 	}
 	c := c11Case{NumByte: nb, Seed: rapid.Uint64().Draw(t, "seed")}
 	if rapid.IntRange(0, 2).Draw(t, "history") == 0 {
